@@ -279,7 +279,7 @@ def n_enc(e):
         enc = "twosComplement" if e.encoding in ("signed", "twosCompliment") else e.encoding
         return ("int", e.bits, enc, e.little, n_cal(e.default_cal), tuple((n_crit(c.criteria), n_cal(c.cal)) for c in e.context_cals))
     if isinstance(e, ir.FloatEnc):
-        enc = "IEEE754" if e.encoding in ("IEEE754_1985", "IEEE-754") else e.encoding
+        enc = "IEEE754" if e.encoding in ("IEEE754_1985", "IEEE-754") else "MILSTD_1750A" if e.encoding == "MIL-1750A" else e.encoding
         return ("float", e.bits, enc, e.little, n_cal(e.default_cal), tuple((n_crit(c.criteria), n_cal(c.cal)) for c in e.context_cals))
     if isinstance(e, ir.BinEnc):
         return ("bin", n_len(e.length))
